@@ -2,6 +2,7 @@ package main
 
 import (
 	"bytes"
+	"crypto"
 	"crypto/ecdsa"
 	"crypto/ed25519"
 	"crypto/elliptic"
@@ -273,7 +274,7 @@ func runC10(c *Collector, r *Rng, thorough bool) {
 			}
 			check("same", par.val, ext, true)
 			check("external-changed", par.val, append(append([]byte{}, ext...), 7), false)
-			for _, mut := range mutateParent(pv) {
+			for _, mut := range mutateParentAll(pv) {
 				check(mut.what, mut.val, ext, mut.ok)
 			}
 			// the two forms are not interchangeable, and neither is a message signature
@@ -328,6 +329,31 @@ func withUnprotected(h cose.Headers) cose.Headers {
 	n.Unprotected[int64(99)] = int64(1)
 	return n
 }
+
+// badUnprotected: the parent with an unprotected bucket that cannot be encoded (the countersignature
+// structure does not contain it, so countersigning and verifying must be unaffected)
+func badUnprotected(h cose.Headers) []struct {
+	what string
+	h    cose.Headers
+} {
+	mk := func(f func(u cose.UnprotectedHeader)) cose.Headers {
+		n := cloneHeaders(h)
+		n.RawUnprotected = nil
+		n.Unprotected = cose.UnprotectedHeader{}
+		f(n.Unprotected)
+		return n
+	}
+	return []struct {
+		what string
+		h    cose.Headers
+	}{
+		{"unprotected-unencodable-value", mk(func(u cose.UnprotectedHeader) { u[int64(99)] = make(chan int) })},
+		{"unprotected-invalid-kid", mk(func(u cose.UnprotectedHeader) { u[int64(4)] = int64(5) })},
+		{"unprotected-unsigned-countersignature", mk(func(u cose.UnprotectedHeader) { u[int64(11)] = &cose.Countersignature{} })},
+		{"unprotected-iv-and-partial-iv", mk(func(u cose.UnprotectedHeader) { u[int64(5)] = []byte{1}; u[int64(6)] = []byte{2} })},
+	}
+}
+
 func flip(b []byte) []byte {
 	if len(b) == 0 {
 		return []byte{1}
@@ -366,6 +392,38 @@ func mutateParent(pv any) []parentMut {
 		return []parentMut{{"protected-changed", a, false}, {"parent-signature-changed", &b, false}, {"unprotected-changed", d, true}}
 	}
 	return nil
+}
+
+// mutateParentAll: mutateParent plus the variants whose unprotected bucket is not encodable
+func mutateParentAll(pv any) []parentMut {
+	out := mutateParent(pv)
+	switch p := pv.(type) {
+	case *cose.Sign1Message:
+		for _, b := range badUnprotected(p.Headers) {
+			d := *p
+			d.Headers = b.h
+			out = append(out, parentMut{b.what, &d, true})
+		}
+	case *cose.SignMessage:
+		for _, b := range badUnprotected(p.Headers) {
+			d := *p
+			d.Headers = b.h
+			out = append(out, parentMut{b.what, d, true})
+		}
+	case *cose.Signature:
+		for _, b := range badUnprotected(p.Headers) {
+			d := *p
+			d.Headers = b.h
+			out = append(out, parentMut{b.what, &d, true})
+		}
+	case *cose.Countersignature:
+		for _, b := range badUnprotected(p.Headers) {
+			d := *p
+			d.Headers = b.h
+			out = append(out, parentMut{b.what, d, true})
+		}
+	}
+	return out
 }
 
 // ---------- C11 ----------
@@ -618,14 +676,24 @@ func runC11(c *Collector, r *Rng, thorough bool) {
 // ---------- C20 ----------
 
 type failingReader struct {
-	n    int // bytes served before failing
-	r    io.Reader
-	done int
+	n      int // bytes served before failing
+	r      io.Reader
+	done   int
+	err    error // the error it fails with (errScripted when nil)
+	failed bool  // an error was handed to the caller
+}
+
+func (f *failingReader) fail() error {
+	f.failed = true
+	if f.err != nil {
+		return f.err
+	}
+	return errScripted
 }
 
 func (f *failingReader) Read(p []byte) (int, error) {
 	if f.done >= f.n {
-		return 0, errScripted
+		return 0, f.fail()
 	}
 	k := len(p)
 	if f.done+k > f.n {
@@ -634,7 +702,7 @@ func (f *failingReader) Read(p []byte) (int, error) {
 	f.r.Read(p[:k])
 	f.done += k
 	if k < len(p) {
-		return k, errScripted
+		return k, f.fail()
 	}
 	return k, nil
 }
@@ -867,28 +935,51 @@ func runC20(c *Collector, r *Rng, thorough bool) {
 			if err != nil {
 				panic(err)
 			}
-			rd := &failingReader{n: budget, r: r}
-			m := &cose.Sign1Message{Headers: hdr(kk.alg), Payload: []byte("p")}
-			var serr error
-			p, _ := protect(func() { serr = m.Sign(rd, nil, signer) })
-			rep := map[string]any{"alg": kk.name, "entropy_bytes_before_failure": budget}
-			c.Eval("entropy/"+kk.name, fmt.Sprint(budget), true)
-			if p {
-				c.Fail("C20/panic", "Sign panicked on a failing entropy source", rep)
-				continue
-			}
-			if serr != nil && len(m.Signature) != 0 {
-				c.Fail("C20/signature-stored-on-entropy-error", "entropy source failed but a signature was stored", rep)
-			}
-			if serr == nil {
-				v, _ := cose.NewVerifier(kk.alg, signer2pub(ek, rk, edk, kk.name))
-				if err := m.Verify(nil, v); err != nil {
-					c.Fail("C20/bad-signature-after-short-entropy", "Sign returned nil with a short entropy source but the signature does not verify", rep)
+			for _, ferr := range []error{errScripted, io.EOF, io.ErrUnexpectedEOF} {
+				rd := &failingReader{n: budget, r: r, err: ferr}
+				m := &cose.Sign1Message{Headers: hdr(kk.alg), Payload: []byte("p")}
+				var serr error
+				p, _ := protect(func() { serr = m.Sign(rd, nil, signer) })
+				rep := map[string]any{"alg": kk.name, "entropy_bytes_before_failure": budget, "entropy_error": ferr.Error()}
+				c.Eval("entropy/"+kk.name+"/"+ferr.Error(), fmt.Sprint(budget), true)
+				// control: does this platform's standard library itself report an entropy source that fails at once?
+				// (newer Go releases ignore the reader for some primitives; then there is nothing to propagate)
+				propagates := false
+				switch kk.name {
+				case "ES256":
+					_, e := ecdsa.SignASN1(&failingReader{n: 0, r: r, err: ferr}, ek, make([]byte, 32))
+					propagates = e != nil
+				case "PS256":
+					_, e := rsa.SignPSS(&failingReader{n: 0, r: r, err: ferr}, rk, crypto.SHA256, make([]byte, 32), &rsa.PSSOptions{SaltLength: rsa.PSSSaltLengthEqualsHash})
+					propagates = e != nil
 				}
-			}
-			out, herr := cose.Sign1(&failingReader{n: budget, r: r}, signer, hdr(kk.alg), []byte("p"), nil)
-			if herr != nil && out != nil {
-				c.Fail("C20/helper-returned-bytes", "Sign1 returned bytes together with an entropy error", rep)
+				if !propagates {
+					rd.failed = false
+				}
+				if !p && rd.failed && serr == nil {
+					c.Fail("C20/entropy-error-swallowed", "the entropy source returned an error during Sign but Sign returned nil", rep)
+				}
+				if p {
+					c.Fail("C20/panic", "Sign panicked on a failing entropy source", rep)
+					continue
+				}
+				if serr != nil && len(m.Signature) != 0 {
+					c.Fail("C20/signature-stored-on-entropy-error", "entropy source failed but a signature was stored", rep)
+				}
+				if serr == nil {
+					v, _ := cose.NewVerifier(kk.alg, signer2pub(ek, rk, edk, kk.name))
+					if err := m.Verify(nil, v); err != nil {
+						c.Fail("C20/bad-signature-after-short-entropy", "Sign returned nil with a short entropy source but the signature does not verify", rep)
+					}
+				}
+				hrd := &failingReader{n: budget, r: r, err: ferr}
+				out, herr := cose.Sign1(hrd, signer, hdr(kk.alg), []byte("p"), nil)
+				if herr != nil && out != nil {
+					c.Fail("C20/helper-returned-bytes", "Sign1 returned bytes together with an entropy error", rep)
+				}
+				if propagates && hrd.failed && herr == nil {
+					c.Fail("C20/entropy-error-swallowed", "the entropy source returned an error during Sign1 but Sign1 returned a message", rep)
+				}
 			}
 		}
 	}
